@@ -11,6 +11,7 @@ the cycle-free distributions.  What IS proved, for a model with any number of re
 (1) BOOKKEEPING (ghost trace of every solver-facing call with the state in force).
   * `current` = the solver's objective value AT ENTRY (the optimum the caller just computed), `sol` = get_solution(model) taken on the
     untouched model, the direction is read once at entry.
+  * `current` None ("a suddenly infeasible solution"): None is returned, nothing else was called on the model.
   * boundary reaction: `current` (solution False) / `sol` (True) is returned and NOTHING was called on the model besides that one
     get_solution - no context, no solve, no setter.
   * otherwise, inside the function's FIRST own context: _add_cycle_free(model, sol.fluxes) - the START fluxes, on the entry bounds -
@@ -76,8 +77,13 @@ FLUX = z3.Function("lp_flux_after_solve", z3.IntSort(), Ref, z3.RealSort())     
 BFIELDS = ("_lower_bound", "_upper_bound", "var_lb", "var_ub")
 
 
-def _model_t():
-    return CL._model_t()
+def _model_t(no_value=False):
+    t = CL._model_t()
+    if no_value:       # objective.value None: "a suddenly infeasible solution"
+        obj = TObj("Objective", {"value": TNone(), "direction": TStr(), "expression": N.TNp()})
+        t = TObj("Model", {"_contexts": TList("ref:HistoryManager"), "_solver": TObj("Solver", {"status": TStr(), "objective": obj}),
+                           "reactions": TDictList("Reaction"), "problem": N.TNp()})
+    return t
 
 
 def _dl(st, m):
@@ -353,6 +359,11 @@ def _post(E):
     # `sol` is taken on the untouched model
     if not (_is_model(E, gpos[0]) and len(_tr(st_g0)) == 0 and _unchanged(E, st_g0, E.s0)):
         return _no("site 2: " + str(names))
+    if isinstance(current, VNone):
+        # no objective value: None is returned and nothing else was called on the model
+        if names != ["get_solution"] or not isinstance(E.res, VNone):
+            return _no("no value: " + str(names))
+        return z3.And(*cs)
     bnd = E.eng.heap_arr(E.s0, "is_boundary")[r]
     if names == ["get_solution"]:
         # boundary reaction: nothing else happened on the model
@@ -448,7 +459,8 @@ def _pre(E):
     t = E["reaction"].t
     return z3.And(WF(E, E.s0, dl), FA([j], z3.Implies(z3.And(0 <= j, j < n), z3.And(*per)), patterns=[e[j]]),
                   z3.Select(dom, idA[t]), e[val[idA[t]]] == t,                                  # the target is a reaction of the model
-                  C4.value_of(E.s0, m).k == 0, C4.value_of(E.s0, m).v != z3.Real("NaN_const"))   # `current` is a finite number
+                  *([] if isinstance(C4.value_of(E.s0, m), VNone) else
+                    [C4.value_of(E.s0, m).k == 0, C4.value_of(E.s0, m).v != z3.Real("NaN_const")]))   # `current` is None or a finite number
 
 
 def _mod(E):
@@ -485,11 +497,19 @@ def _cases():
     for tag, flag in (("value", False), ("solution", True)):
         c = Case(tag, ensures=_post)
         c.params_override = {"solution": TConc(flag)}
-        c.applies = (lambda fl: lambda a, st: _flag(a.get("solution")) is fl)(flag)
+        c.applies = (lambda fl: lambda a, st: _flag(a.get("solution")) is fl and not isinstance(C4.value_of(st, a["model"]), VNone))(flag)
         c.may_raise = "Exception"       # OptimizationError (a status without primal values), ValueError (closing a reaction whose bounds exclude 0)
         c.ensures_on_raise = _on_raise
         c.modifies_on_raise = _mod
         out.append(c)
+    c = Case("no_objective_value", ensures=_post)
+    c.params_override = {"model": _model_t(no_value=True), "solution": TBool()}
+    c.applies = lambda a, st: isinstance(C4.value_of(st, a["model"]), VNone)
+    c.result = lambda eng, st, E: (st, NONE)
+    c.may_raise = "OptimizationError"       # get_solution on a status without primal values; nothing has been touched
+    c.ensures_on_raise = _on_raise
+    c.modifies_on_raise = _mod
+    out.append(c)
     return out
 
 
@@ -630,6 +650,7 @@ every one NOT verified, both cases unless said otherwise):
   M10 a raw `model.objective.direction = "min"` before the contexts (compensated by the final write on the normal path only)
       ....... value: exit=raise:OptimizationError#2/post.12, #3/post.12 (direction on the exceptional exits), loop#0/inv-init.3,
               exit=return#2/post.15 unknown; solution: undecided (C04's Model.optimize contract cannot read a literal direction)
+  M11 `if current is None: return 0.0` ............................................... case=no_objective_value/exit=return#1/post sat
 _fva_step@loopless (cobra/flux_analysis/variability.py ... --hooks STEP_HOOKS "_fva_step@loopless"), each NOT verified:
   S1  the slim_optimize() before the status check dropped ............................ call:loopless_fva_iter/pre (`current` finite), post
   S2  reset dictionary {rxn.forward_variable: 0} only ................................. exit=return#1/post.6, #2/post.6 sat
